@@ -755,6 +755,8 @@ func scnRoles(g *Gen, budget int, arg string) {
 					from := g.role("pending")
 					if from == "" || g.chance(0.4) {
 						from = g.anyAcct()
+					} else if g.chance(0.25) {
+						from = otherCase(from) // the nominee's address in the other letter case is somebody else
 					}
 					if g.chance(0.2) {
 						from = g.role("owner")
@@ -1397,11 +1399,19 @@ func scnReplace(g *Gen, budget int, arg string) {
 				src = []uint32{0, 1, 5}[g.pick(3)]
 			}
 			var sender []byte
-			switch g.pick(4) {
+			switch g.pick(5) {
 			case 0, 1:
 				sender = pad32(g.acctRaw[sub])
 			case 2:
 				sender = pad32(g.acctRaw[(sub+1)%len(g.acct)])
+			case 3:
+				// the submitter (or the module) in the low 20 bytes under non-zero padding: not the submitter's padded address
+				sender = pad32(g.acctRaw[sub])
+				if g.chance(0.4) {
+					sender = append([]byte{}, types.PaddedModuleAddress...)
+				}
+				g.rng.Read(sender[:12])
+				sender[g.pick(12)] |= 1
 			default:
 				sender = types.PaddedModuleAddress
 			}
